@@ -8,6 +8,7 @@ import time
 import kani_run
 import props
 import verus_run
+import witness_run
 
 
 def load_known(root):
@@ -42,11 +43,28 @@ def run_property(pid, tier, seed, repo, root, t0):
         except Exception as e:  # noqa
             undecided.append("pre-hook %s: %s" % (hook, e))
     # ------------------------------------------------------------------ Verus units
+    witness_cache = {}
+
+    def witness(u):
+        if u not in witness_cache:
+            witness_cache[u] = witness_run.run(u, repo, root)
+        return witness_cache[u]
+
     for u in cfg.get("verus", []):
         r = verus_run.run_unit(u, repo, root)
         units.append(r)
         if r["class"] == "undecided":
-            undecided.append("verus:%s: %s" % (u, r.get("reason")))
+            # the deductive check cannot judge the current text (construct outside the verifier's subset, lost
+            # anchor, ...): bounded stand-in — search for a failing input on the real code
+            w = witness(u) if u in witness_run.WITNESS else {"status": "error", "detail": "no witness module"}
+            r["witness"] = w
+            if w.get("status") == "found":
+                r.setdefault("obligations", []).append({
+                    "name": "witness:%s" % u, "role": "carries", "backend": "bounded search on the real code (cargo test)",
+                    "status": "failed", "bound": "bounded(%s)" % w.get("bound"), "text": "stand-in for verus:%s, which could not judge the current text (%s)" % (u, (r.get("reason") or "")[:160]),
+                    "failing": [{"message": "failing input found on the real code", "text": w["detail"], "clause": None}], "witness": w})
+            else:
+                undecided.append("verus:%s: %s [bounded witness search: %s %s]" % (u, r.get("reason"), w.get("status"), w.get("detail", "")))
     vac = []
     if tier == "thorough":
         for u in cfg.get("verus", []):
@@ -136,9 +154,18 @@ def run_property(pid, tier, seed, repo, root, t0):
                     continue
                 if ok is None:
                     suffix = " no-failing-input-found"
+        elif o["name"].startswith("witness:"):
+            rep["witness"] = o.get("witness")
+            rep["failing_input"] = o["witness"]["detail"]
+            rep["replay_cmd"] = "./check %s --replay %s" % (pid, path)
         else:
             rep["verifier_output"] = o.get("failing")
             unit = o["name"][len("verus:"):].split("::", 1)[0]
+            if unit in witness_run.WITNESS:
+                w = witness(unit)
+                rep["witness"] = w
+                if w.get("status") == "found":
+                    rep["failing_input"] = w["detail"]
             ur = [r for r in units if r.get("unit") == unit and r["backend"] == "verus"]
             if ur:
                 rep["checker_cmd"] = ur[0].get("checker_cmd")
@@ -148,9 +175,12 @@ def run_property(pid, tier, seed, repo, root, t0):
                         rep["generated_verus_text"] = f.read()
                 except Exception:  # noqa
                     pass
-            suffix = " no-failing-input-found"
+            suffix = "" if rep.get("failing_input") else " no-failing-input-found"
         _write(path, rep)
-        vio_lines.append("VIOLATION property=%s replay=%s obligation=%s (%s)%s" % (pid, path, o["name"], _why(o), suffix))
+        extra = ""
+        if rep.get("failing_input") and not o["name"].startswith("witness:"):
+            extra = " failing-input[bounded search on the real code]: " + str(rep["failing_input"])[:300]
+        vio_lines.append("VIOLATION property=%s replay=%s obligation=%s (%s)%s%s" % (pid, path, o["name"], _why(o), extra, suffix))
     violations = [o for o in violations if o["status"] == "failed"]
     # ------------------------------------------------------------------ evidence
     carried = [o for o in obligations if o["role"] == "carries"]
@@ -225,6 +255,8 @@ def _is_bounded(o):
 def _why(o):
     if o.get("failed_checks"):
         return "; ".join(o["failed_checks"])[:300]
+    if o.get("witness"):
+        return "failing input on the real code: " + o["witness"]["detail"][:300]
     if o.get("failing"):
         e = o["failing"][0]
         return ("%s at `%s`%s" % (e["message"], e["text"][:120], (" clause `%s`" % e["clause"][:120]) if e.get("clause") else ""))
@@ -247,6 +279,14 @@ def replay(pid, path, repo, root):
             print("VIOLATION property=%s replay=%s" % (pid, path))
             return 1
         return 0 if ok is False else 2
+    if name.startswith("witness:") or (name.startswith("verus:") and rep.get("failing_input")):
+        unit = name.split(":", 1)[1].split("::", 1)[0]
+        w = witness_run.run(unit, repo, root)
+        print("bounded witness search on the real code: %s %s" % (w.get("status"), w.get("detail")))
+        if w.get("status") == "found":
+            print("VIOLATION property=%s replay=%s" % (pid, path))
+            return 1
+        return 0 if w.get("status") == "none" else 2
     if name.startswith("verus:"):
         unit = name[len("verus:"):].split("::", 1)[0]
         r = verus_run.run_unit(unit, repo, root)
